@@ -26,8 +26,8 @@ LineFails(e) ==
          Fail("C14_Expansion", e.idx = X)
     \cup Fail("C14_Deterministic", e.stable)
     \cup Fail("C14_Admission", MustReject(c) => ~e.accepted)
-    \cup Fail("C14_DistinctIdentity", e.accepted => (NoDupSeq(e.hash) /\ NoDupSeq(e.name) /\ e.slots = Len(X)))
-    \cup Fail("C14_OwnVariables", Len(e.vars) = Len(X) /\ \A i \in 1..Len(X) : e.vars[i] = VarsStr(X[i]))
+    \cup Fail("C14_DistinctIdentity", e.accepted => (NoDupSeq(e.hash) /\ NoDupSeq(e.name) /\ NoDupSeq(e.namel) /\ e.slots = Len(X)))
+    \cup Fail("C14_OwnVariables", Len(e.vars) = Len(X) /\ Len(e.ivars) = Len(X) /\ \A i \in 1..Len(X) : e.vars[i] = VarsStr(X[i]) /\ e.ivars[i] = VarsStr(X[i]))
 
 Init == l = 1 /\ viol = {}
 Next == /\ l <= N /\ l' = l + 1
